@@ -28,7 +28,8 @@ def closer(step: int | None, at: float | None, then: tuple = ()):
     def inject(s: vloop.Session, state: dict):
         def fire():
             state["last_disturbance"] = s.loop.time()
-            s.user("close", s.client.close)
+            # (every third session leaves the client's `async with` block instead of calling close() itself)
+            s.user("close", s.client.close if (step or 0) % 3 != 1 else (lambda: s.client.__aexit__(None, None, None)))
             for i, what in enumerate(then):
                 def later(what=what):
                     if what == "connect":
